@@ -203,8 +203,37 @@ func runProp(p *Program, id, tier string) (r *Result) {
 	}
 	p.setViews(false)
 	ra := runPropOnce(p, id, tier)
-	if len(violKeys(ra)) == 0 || os.Getenv("VERIF_NOVIEWS") != "" || noViewProps[id] {
+	if os.Getenv("VERIF_NOVIEWS") != "" || noViewProps[id] {
 		return ra
+	}
+	if len(violKeys(ra)) == 0 {
+		// clean as written. A rule that looks into one function only would not see a violation that sits in a small
+		// helper of that function; the views have the helpers folded in, so they are consulted as well, and a
+		// *violation* there (not a construct the rule cannot read there) is reported
+		p.setViews(true)
+		rb := runPropOnce(p, id, tier)
+		p.setViews(false)
+		var found []Obligation
+		for _, ob := range violKeys(rb) {
+			if ob.Status == Violated {
+				found = append(found, ob)
+			}
+		}
+		if len(found) == 0 {
+			return ra
+		}
+		rb.Notes = append(rb.Notes, fmt.Sprintf("the code as written discharges every obligation, but with helpers folded into their callers %d violation(s) appear: reported from the inlined views", len(found)))
+		rb.Analysed["representation"] = "inlined views (helpers folded into callers)"
+		// keep only the violations: what the rules could not read on the views is not a finding when the code as
+		// written is fully decided
+		var kept []Obligation
+		for _, ob := range rb.Obls {
+			if ob.Status == Discharged || ob.Status == Violated {
+				kept = append(kept, ob)
+			}
+		}
+		rb.Obls = kept
+		return rb
 	}
 	// rules whose subject is a call boundary (what a callee can hand back) lose their subjects when the callee is
 	// folded in: their findings on the code as written stand
